@@ -110,6 +110,11 @@ def structured(rng, n, t, kind):
             out.append(0 if pos % 64 < 32 else rng.range(1, 255))
         elif kind == 4:
             out.append(0 if pos % 64 >= 32 else rng.range(1, 255))
+        elif kind == 6:
+            # every symbol a run of one byte drawn from [0x00,0x0F] u [0x80,0xFF] (sign-sensitive vector compares)
+            if pos == 0:
+                structured.cur = rng.choice([rng.below(16), rng.range(0x80, 0xFF), 0xFF, 0x0F])
+            out.append(structured.cur)
         else:
             out.append((1 << rng.below(8)) if rng.below(9) == 0 else 0)
     return out
@@ -120,8 +125,11 @@ def meta_cases(rng, tier):
     groups = []
     ks = [1, 5, 10, 11, 26, 33, 101] if tier == "quick" else [1, 2, 9, 10, 11, 12, 13, 26, 27, 49, 50, 101, 102, 250, 251]
     ks = [(k, None, 0) for k in ks]
+    # every small symbol size once (size-specific fast paths in the slab layer)
+    for t in range(1, 25):
+        ks.append((rng.choice([4, 10, 12]), t, 0))
     # symbol sizes of at least one vector width with structured contents (data-dependent kernel paths)
-    for kind in (1, 2, 3, 4, 5):
+    for kind in (1, 2, 3, 4, 5, 6, 6):
         for t in ((64, 100) if tier == "quick" else (64, 65, 100, 128, 130, 200)):
             ks.append((rng.choice([4, 10, 12, 20]), t, kind))
     for k, tfix, kind in ks:
